@@ -210,6 +210,15 @@ func listenerOrder(n int) []int {
 // expectEventLog predicts the global-log entries of one callback from its
 // script. It returns the entries and whether the callback panicked.
 func expectEventLog(p *PatSpec, pi int, script []string, id int, rname, inbox string, isRequest bool, handler string) []string {
+	return expectEventLogOrder(p, pi, script, id, rname, inbox, isRequest, handler, nil)
+}
+
+// expectEventLogOrder: with the listeners of one event call invoked in the
+// given order (nil: the order in which the library at the pinned commit calls
+// them). C08 does not fix an order among the listeners of one event, so a
+// sequence that differs from the prediction is compared with the prediction
+// for every other order before it is reported.
+func expectEventLogOrder(p *PatSpec, pi int, script []string, id int, rname, inbox string, isRequest bool, handler string, lorder []int) []string {
 	var log []string
 	replied := false
 	sid := strconv.Itoa(id)
@@ -219,6 +228,9 @@ func expectEventLog(p *PatSpec, pi int, script []string, id int, rname, inbox st
 		order := listenerOrder(p.Listen)
 		if p.Extra3 {
 			order = append(append([]int{}, order...), 3)
+		}
+		if lorder != nil {
+			order = lorder
 		}
 		for _, li := range order {
 			log = append(log, fmt.Sprintf("listener %d %s %s %s", li, name, rname, dig))
@@ -504,7 +516,21 @@ func (e *Engine) checkEvents() {
 		if s.Kind != "emitscript" && s.Group != "" && first != 0 {
 			spans = append(spans, span{s.Op.ID, s.Group, first, last})
 		}
-		if strings.Join(got, "\n") != strings.Join(want, "\n") {
+		matches := strings.Join(got, "\n") == strings.Join(want, "\n")
+		if !matches {
+			base := listenerOrder(pat.Listen)
+			if pat.Extra3 {
+				base = append(append([]int{}, base...), 3)
+			}
+			permutations(base, func(o []int) bool {
+				if strings.Join(got, "\n") == strings.Join(expectEventLogOrder(pat, patID, s.Op.Script, s.Op.ID, rname, s.Inbox, isReq, s.Handler, o), "\n") {
+					matches = true
+					e.Sim.Probe("listeners of one event called in another order than at the pinned commit")
+				}
+				return !matches
+			})
+		}
+		if !matches {
 			e.H.Violate("C08", "event-sequence", "", fmt.Sprintf("callback %d (%s %s%s) script=%v pattern={type:%d apply:%q listeners:%d}\n got: %s\nwant: %s", s.Op.ID, s.Kind, s.Op.Subject, s.Op.RID, s.Op.Script, pat.Type, pat.Apply, pat.Listen, strings.Join(got, " | "), strings.Join(want, " | ")))
 		}
 	}
@@ -525,3 +551,23 @@ var _ = model.JSONEqual
 var _ = simconn.IsPreResponse
 
 func init() { register(EventsScenario{}) }
+
+// permutations calls f with every permutation of a until f returns false.
+func permutations(a []int, f func([]int) bool) {
+	var rec func(k int) bool
+	b := append([]int{}, a...)
+	rec = func(k int) bool {
+		if k == len(b) {
+			return f(append([]int{}, b...))
+		}
+		for i := k; i < len(b); i++ {
+			b[k], b[i] = b[i], b[k]
+			if !rec(k + 1) {
+				return false
+			}
+			b[k], b[i] = b[i], b[k]
+		}
+		return true
+	}
+	rec(0)
+}
